@@ -140,6 +140,141 @@ pub fn read_execstart(unit_text: &str) -> Result<Vec<Vec<u8>>, String> {
   Ok(out)
 }
 
+/// the argument vector after word splitting, unescaping and specifier expansion but BEFORE $ expansion
+/// (what systemd stores in the unit and `systemd-analyze verify` dumps as "Command Line:")
+fn read_execstart_pre_env(unit_text: &str) -> Result<Vec<Vec<u8>>, String> {
+  let phys: Vec<&str> = unit_text.split('\n').collect();
+  let mut i = 0;
+  while i < phys.len() && !phys[i].starts_with("ExecStart=") { i += 1; }
+  if i >= phys.len() { return Err("no ExecStart line".into()); }
+  let mut cur = phys[i].to_string();
+  while cur.ends_with('\\') {
+    cur.pop(); cur.push(' '); i += 1;
+    while i < phys.len() && { let t = phys[i].trim_start_matches(|c| c == ' ' || c == '\t'); t.starts_with('#') || t.starts_with(';') } { i += 1; }
+    if i >= phys.len() { break; }
+    cur.push_str(phys[i]);
+  }
+  Ok(split_words(&cur["ExecStart=".len()..])?.iter().map(|w| expand_specifiers(w)).collect())
+}
+
+/// parses the display form of `systemd-analyze verify` ("Command Line: a \"b c\" ..."): bare words, or double-quoted
+/// words with backslash escapes (\" \\ \$ \` C escapes and 3-digit octal)
+fn parse_command_line_display(b: &[u8]) -> Option<Vec<Vec<u8>>> {
+  let mut out = vec![]; let mut i = 0;
+  while i < b.len() {
+    while i < b.len() && b[i] == b' ' { i += 1; }
+    if i >= b.len() { break; }
+    let mut w = vec![];
+    if b[i] == b'"' {
+      i += 1;
+      loop {
+        if i >= b.len() { return None; }
+        match b[i] {
+          b'"' => { i += 1; break; }
+          b'\\' => {
+            i += 1; if i >= b.len() { return None; }
+            match b[i] {
+              b'a' => w.push(7), b'b' => w.push(8), b'f' => w.push(12), b'n' => w.push(b'\n'), b'r' => w.push(b'\r'), b't' => w.push(b'\t'), b'v' => w.push(11),
+              b'0'..=b'7' => { if i + 2 >= b.len() { return None; } let v = (b[i] - b'0') as u32 * 64 + (b[i + 1] - b'0') as u32 * 8 + (b[i + 2] - b'0') as u32; w.push(v as u8); i += 2; }
+              b'x' => { if i + 2 >= b.len() { return None; } let h = std::str::from_utf8(&b[i + 1..i + 3]).ok()?; w.push(u8::from_str_radix(h, 16).ok()?); i += 2; }
+              c => w.push(c),
+            }
+            i += 1;
+          }
+          c => { w.push(c); i += 1; }
+        }
+      }
+    } else {
+      while i < b.len() && b[i] != b' ' { w.push(b[i]); i += 1; }
+    }
+    out.push(w);
+  }
+  Some(out)
+}
+
+pub struct RealTier { pub units: u64, pub agree: u64, pub skipped_specifier: u64, pub findings: Vec<(&'static str, String, Vec<String>)>, pub model_errors: Vec<String> }
+
+/// Conformance of the reference reader with the installed systemd (when `systemd-analyze` exists): for a sample of
+/// pattern lists the real parser's argument vector must equal the reference reader's pre-$ stage, and, on this tree, the
+/// expected vector.  None when systemd-analyze is not available.
+pub fn real_systemd_tier(ctx: &Ctx, samples: &[Vec<String>]) -> Option<RealTier> {
+  use std::process::Command;
+  let ok = Command::new("systemd-analyze").arg("--version").output().map(|o| o.status.success()).unwrap_or(false);
+  if !ok { return None; }
+  let dir = format!("/verif/.target/sd-{}", std::process::id());
+  let _ = std::fs::remove_dir_all(&dir);
+  std::fs::create_dir_all(&dir).ok()?;
+  let mut t = RealTier { units: 0, agree: 0, skipped_specifier: 0, findings: vec![], model_errors: vec![] };
+  let batch = 150;
+  let mut start = 0;
+  while start < samples.len() {
+    let end = (start + batch).min(samples.len());
+    let mut names = vec![];
+    for i in start..end {
+      let refs: Vec<&str> = samples[i].iter().map(|s| s.as_str()).collect();
+      let text = crate::udev_utils::verif_build_service_text(&refs);
+      let name = format!("tm{}@x.service", i);
+      if std::fs::write(format!("{}/{}", dir, name), text.as_bytes()).is_err() { return None; }
+      names.push(format!("./{}", name));
+    }
+    let out = Command::new("systemd-analyze").arg("verify").arg("--man=no").args(&names).current_dir(&dir).env("SYSTEMD_LOG_LEVEL", "debug").output().ok()?;
+    // stdout, split on \n only (unit text may contain U+0085 etc.)
+    let mut parsed: std::collections::HashMap<usize, Vec<Vec<u8>>> = Default::default();
+    let mut cur: Option<usize> = None;
+    for line in out.stdout.split(|b| *b == b'\n') {
+      let l: &[u8] = { let mut a = 0; while a < line.len() && (line[a] == b'\t' || line[a] == b' ') { a += 1; } &line[a..] };
+      if l.starts_with(b"-> Unit tm") { let rest = &l[10..]; let digits: Vec<u8> = rest.iter().take_while(|c| c.is_ascii_digit()).cloned().collect(); cur = String::from_utf8(digits).ok().and_then(|d| d.parse().ok()); }
+      else if l.starts_with(b"-> Unit ") { cur = None; }
+      else if l.starts_with(b"Command Line: ") { if let (Some(i), Some(a)) = (cur, parse_command_line_display(&l[14..])) { parsed.entry(i).or_insert(a); } }
+    }
+    for i in start..end {
+      t.units += 1;
+      let refs: Vec<&str> = samples[i].iter().map(|s| s.as_str()).collect();
+      let text = crate::udev_utils::verif_build_service_text(&refs);
+      let model = read_execstart_pre_env(&text);
+      // expectation before $ expansion: every $ of a pattern still doubled, %I already replaced by the instance name
+      let mut exp: Vec<Vec<u8>> = ["/usr/bin/totalmapper", "remap", "--verbose", "--layout-file", "/etc/totalmapper.json", "--only-if-keyboard"].iter().map(|s| s.as_bytes().to_vec()).collect();
+      for p in &refs { exp.push(b"--exclude".to_vec()); exp.push(p.replace('$', "$$").into_bytes()); }
+      exp.push(b"--dev-file".to_vec()); exp.push(b"/x".to_vec());
+      let real = parsed.get(&i);
+      let lone_semicolon = refs.iter().any(|p| *p == ";");
+      // model with the instance specifier resolved; any other specifier marker means the comparison cannot be made literally
+      let model_res: Option<Result<Vec<Vec<u8>>, String>> = match &model {
+        Err(e) => Some(Err(e.clone())),
+        Ok(a) => { let joined: Vec<Vec<u8>> = a.iter().map(|w| { let s = String::from_utf8_lossy(w).replace(&format!("{}SPECI{}", MARK, MARK), "x").replace(&format!("{}SPECi{}", MARK, MARK), "x"); if s.contains(MARK) { vec![0xff, 0xfe] } else { replace_bytes(w) } }).collect();
+          if joined.iter().any(|w| w == &vec![0xff, 0xfe]) { None } else { Some(Ok(joined)) } }
+      };
+      match (real, model_res) {
+        (_, None) => { t.skipped_specifier += 1; }
+        (None, Some(Err(_))) => { t.agree += 1; if !lone_semicolon { t.findings.push(("exec-line-invalid", format!("the installed systemd and the reference reader both reject the line for {:?}", refs), samples[i].clone())); } }
+        (None, Some(Ok(m))) => { if lone_semicolon { t.agree += 1; } else { t.model_errors.push(format!("the installed systemd rejects the unit for {:?} but the reference reader reads {}", refs, show(&m))); } }
+        (Some(r), Some(Err(e))) => t.model_errors.push(format!("the installed systemd reads {} for {:?} but the reference reader rejects the line ({})", show(r), refs, e)),
+        (Some(r), Some(Ok(m))) => {
+          if *r != m { t.model_errors.push(format!("for {:?} the installed systemd reads {} but the reference reader reads {}", refs, show(r), show(&m))); }
+          else { t.agree += 1; if *r != exp { t.findings.push(("pattern-changed", format!("the installed systemd reads {} where {} is expected (patterns {:?})", show(r), show(&exp), refs), samples[i].clone())); } }
+        }
+      }
+    }
+    start = end;
+  }
+  let _ = std::fs::remove_dir_all(&dir);
+  let _ = ctx;
+  Some(t)
+}
+
+fn replace_bytes(w: &[u8]) -> Vec<u8> {
+  // resolve the %I / %i markers on the byte level
+  let mark_i = format!("{}SPECI{}", MARK, MARK).into_bytes();
+  let mark_i2 = format!("{}SPECi{}", MARK, MARK).into_bytes();
+  let mut out = vec![]; let mut i = 0;
+  while i < w.len() {
+    if w[i..].starts_with(&mark_i) { out.push(b'x'); i += mark_i.len(); }
+    else if w[i..].starts_with(&mark_i2) { out.push(b'x'); i += mark_i2.len(); }
+    else { out.push(w[i]); i += 1; }
+  }
+  out
+}
+
 fn expected_argv(pats: &[&str]) -> Vec<Vec<u8>> {
   let mut exp: Vec<Vec<u8>> = ["/usr/bin/totalmapper", "remap", "--verbose", "--layout-file", "/etc/totalmapper.json", "--only-if-keyboard"].iter().map(|s| s.as_bytes().to_vec()).collect();
   for p in pats { exp.push(b"--exclude".to_vec()); exp.push(p.as_bytes().to_vec()); }
@@ -274,7 +409,33 @@ pub fn run(ctx: &Ctx) -> Outcome {
   // the no-exclude unit must read back too
   total.run(&[]);
 
+  // conformance of the reference reader with the installed systemd, on a sample
+  let mut samples: Vec<Vec<String>> = vec![];
+  for u in 1u32..=0xa0 { if let Some(c) = char::from_u32(u) { samples.push(vec![c.to_string()]); } }
+  for c in ['\u{e9}', '\u{20ac}', '\u{1F600}', '\u{2028}', '\u{feff}'] { samples.push(vec![c.to_string()]); samples.push(vec![format!("a{}b", c)]); }
+  let ascii_alpha: Vec<char> = alpha.iter().cloned().filter(|c| c.is_ascii()).collect();
+  for a in &ascii_alpha { for b in &ascii_alpha { samples.push(vec![format!("{}{}", a, b)]); } }
+  for a in &ascii_alpha { samples.push(vec![format!("x{}", a), format!("{}y", a), a.to_string()]); }
+  samples.push((0..130).map(|i| format!("{}{} Footswitch", alpha[i % alpha.len()], i)).collect());
+  let real = real_systemd_tier(ctx, &samples);
+
   let mut o = Outcome::new("exploration");
+  match &real {
+    None => { o.cov("installed_systemd_tier", "unavailable"); }
+    Some(t) => {
+      o.cov("installed_systemd_tier", "ran");
+      o.cov("installed_systemd_units_parsed", t.units);
+      o.cov("installed_systemd_agrees_with_reference_reader", t.agree);
+      o.cov("installed_systemd_units_skipped_specifier_expansion", t.skipped_specifier);
+      total.evaluations += t.units;
+      if let Some(e) = t.model_errors.first() { o.machinery_error = Some(format!("the reference systemd reader disagrees with the installed systemd ({} cases), e.g. {}", t.model_errors.len(), e)); }
+      for (clause, detail, pats) in &t.findings {
+        let refs: Vec<&str> = pats.iter().map(|s| s.as_str()).collect();
+        let e = total.fails.entry((clause, format!("installed systemd; {}", class_of(&refs)))).or_insert((0, pats.clone(), detail.clone()));
+        e.0 += 1;
+      }
+    }
+  }
   o.cov("evaluations", total.evaluations);
   o.cov("distinct_nontrivial", total.nontrivial);
   o.cov("unicode_scalars_covered", scalars);
@@ -291,6 +452,7 @@ pub fn run(ctx: &Ctx) -> Outcome {
   o.assumptions = vec![
     "the reference reader is this harness's reading of systemd's documented rules (split on unquoted whitespace, quotes, C escapes with unknown escapes invalid, then % specifiers, then $ variables); the standalone-`;` rule of ExecStart= is not among the rules the property lists and is not part of the oracle".into(),
     "NUL cannot occur in a command-line argument and is excluded".into(),
+    "when systemd-analyze is installed, the reference reader's pre-$ stage is compared with the real parser's dump on a sample of ~700 pattern lists every run; a disagreement is a machinery failure".into(),
   ];
   for ((clause, class), (count, pats, detail)) in &total.fails {
     let art = json!({"engine": "C17", "patterns": pats, "code_points": pats.iter().map(|p| p.chars().map(|c| format!("U+{:04X}", c as u32)).collect::<Vec<_>>()).collect::<Vec<_>>(), "class": class});
